@@ -1341,17 +1341,20 @@ class GenotypeVcfWriter(VcfAugmenter):
         leave_unchanged -- if True, leaves records of current chromosome unchanged
         """
 
-        # map positions to index
+        # map variants to index (position and alleles: another record on the same position,
+        # which the reader did not load, must not receive the results of the one it loaded)
         genotyped_variants = dict()
         for i in range(len(variant_table)):
-            genotyped_variants[variant_table.variants[i].position] = i
+            variant = variant_table.variants[i]
+            key = (variant.position, variant.reference_allele, tuple(variant.get_alt_allele_list()))
+            genotyped_variants[key] = i
 
         # INT_TO_UNPHASED_GT = {0: (0, 0), 1: (0, 1), 2: (1, 1), -1: None}
         GT_GL_GQ = frozenset(["GT", "GL", "GQ"])
         for record in self._record_modifier(chromosome):
-            pos = record.start
             if not record.alts:
                 continue
+            pos = (record.start, str(record.ref), tuple(str(alt) for alt in record.alts))
 
             for sample, call in record.samples.items():
                 geno = Genotype([])
